@@ -37,12 +37,20 @@ type vfc03Chunk struct {
 	Min, Max int64
 	Variant  int
 	Aggr     bool
+	// aggregated chunks only: the aggregate fields with index >= TailFrom (0 Count, 1 Sum, 2 Min, 3 Max, 4 Counter) are
+	// encoded from TailVariant instead of Variant (TailFrom 0: no tail). Such a chunk agrees with the plain chunk of the
+	// same range and Variant in its first TailFrom aggregates only.
+	TailFrom    int
+	TailVariant int
 }
 
 func (c vfc03Chunk) String() string {
 	k := "raw"
 	if c.Aggr {
 		k = "aggr"
+	}
+	if c.Aggr && c.TailFrom > 0 {
+		return fmt.Sprintf("%s[%d,%d]v%d/from-field-%d:v%d", k, c.Min, c.Max, c.Variant, c.TailFrom, 100+c.TailVariant)
 	}
 	return fmt.Sprintf("%s[%d,%d]v%d", k, c.Min, c.Max, c.Variant)
 }
@@ -79,7 +87,11 @@ func vfc03ChunkData(c vfc03Chunk) [][]byte {
 		if !c.Aggr {
 			salt = 9 // raw sample bytes never equal the bytes of an aggregate of the same range
 		}
-		out[i] = vfc03XOR(c.Min, c.Max, float64(c.Variant*10+salt))
+		v := c.Variant
+		if c.Aggr && c.TailFrom > 0 && i >= c.TailFrom {
+			v = 100 + c.TailVariant
+		}
+		out[i] = vfc03XOR(c.Min, c.Max, float64(v*10+salt))
 	}
 	vfc03ChunkCache.Store(c, out)
 	return out
@@ -332,6 +344,9 @@ type vfc03Server struct {
 	warnings []string
 	shapes   []int // series per message, -1 for a warning, -2 other
 	onSend   func(nth int) error
+	// raw retains the response objects exactly as they were handed to Send; they are decoded only after Series returned
+	// (a streaming transport may marshal a frame after Send has returned).
+	raw []*storepb.SeriesResponse
 }
 
 func vfc03NewServer(ctx context.Context) *vfc03Server { return &vfc03Server{ctx: ctx} }
@@ -341,6 +356,7 @@ func (s *vfc03Server) Context() context.Context { return s.ctx }
 func (s *vfc03Server) Send(r *storepb.SeriesResponse) error {
 	s.mu.Lock()
 	defer s.mu.Unlock()
+	s.raw = append(s.raw, r)
 	switch {
 	case r.GetWarning() != "":
 		s.warnings = append(s.warnings, r.GetWarning())
@@ -374,6 +390,30 @@ func (s *vfc03Server) flat() ([]vfc03Out, []string) {
 		out = append(out, vfc03Out{Lset: labelpb.ZLabelsToPromLabels(ser.Labels).Copy(), Chunks: ser.Chunks})
 	}
 	return out, append([]string(nil), s.warnings...)
+}
+
+// flatRetained decodes the retained response objects now (to be called after Series returned).
+func (s *vfc03Server) flatRetained() ([]vfc03Out, []string) {
+	s.mu.Lock()
+	defer s.mu.Unlock()
+	var out []vfc03Out
+	var warns []string
+	add := func(ser *storepb.Series) {
+		out = append(out, vfc03Out{Lset: labelpb.ZLabelsToPromLabels(ser.Labels).Copy(), Chunks: ser.Chunks})
+	}
+	for _, r := range s.raw {
+		switch {
+		case r.GetWarning() != "":
+			warns = append(warns, r.GetWarning())
+		case r.GetSeries() != nil:
+			add(r.GetSeries())
+		case r.GetBatch() != nil:
+			for _, ser := range r.GetBatch().Series {
+				add(ser)
+			}
+		}
+	}
+	return out, warns
 }
 
 func vfc03FmtOut(out []vfc03Out) []string {
